@@ -147,3 +147,26 @@ def c16_plan(ctx, tier):
 
 PLANS["C15"] = c15_plan
 PLANS["C16"] = c16_plan
+
+
+def c13_plan(ctx, tier):
+    import vcheck_race
+    q = tier == "quick"
+    ctx.mc_replay("conc", "MC_Conc.tla", "MC_Conc.cfg", "fam_conc.json", ["C13"], replaycmd="replayconc",
+                  consts={"K": 2 if q else 3}, workers=8, timeout=3400)
+    ctx.tlc_expect_violation("zero-value-control", "MC_Conc.tla", "MC_Conc.cfg", "fam_conc_zero.json", "NoPolicyWrite")
+    race = vcheck_race.build_race()
+    out = ctx.vh("race-stress", ["concstress", "-policies", "8" if q else "60", "-inputs", "30" if q else "60", "-repeat", "6" if q else "30"],
+                 binary=race, timeout=3400, race=True)
+    return dict(rule=("TLC explores every interleaving (token granularity) of K calls on one shared policy over fam_conc (UGC+comments, overlapping "
+                      "element patterns and style rules, Strict) and checks SharedIsReadOnly, Deterministic, NoCarryOver; every complete "
+                      "interleaving is replayed on the real code with the token hook as scheduler gate: outputs equal the sequential ones, "
+                      "policy snapshot identical before and after, later calls unaffected; negative control: with a zero-value Policy{} "
+                      "(precondition dropped) TLC finds the lazy-initialisation write; race-stress: the harness built with -race, 16 goroutines "
+                      "x repeated random inputs per policy, ungated, all three string/bytes/reader entry points, every result compared with the "
+                      "sequential one (Go's map order varies between repetitions). non-trivial = distinct (policy, inputs) combinations"),
+                exhaustive=False,
+                assumptions=ASSUME_COMMON + ["data-race freedom itself is observed by the Go race detector on the ungated stress run (a race report makes the job fail as a violation); the specification supplies schedules, the read-only obligation and the determinism oracle"])
+
+
+PLANS["C13"] = c13_plan
